@@ -5,7 +5,7 @@ HERE = os.path.dirname(os.path.abspath(__file__))
 PY = "/venv/bin/python"
 import importlib.util, sys
 sys.path.insert(0, HERE)
-from manifest_table import CLAIMED, NOT_APPLICABLE  # noqa: E402
+from manifest_table import ADDED, CLAIMED, NOT_APPLICABLE, TIERS  # noqa: E402
 
 checks = []
 for pid, d in sorted(CLAIMED.items()):
@@ -16,7 +16,7 @@ for pid, d in sorted(CLAIMED.items()):
         "evidence_file": f"/verif/evidence/{pid}.json",
         "replay_cmd_template": f"{PY} /verif/check {pid} --replay {{path}}",
         "engine": "sa",
-        "level_claimed": {"category": "other", "text": d["text"], "design_ref": d.get("design_ref", f"DESIGN.md section 4 {pid}")},
+        "level_claimed": {"category": "other", "text": d["text"] + (" " + ADDED[pid] if pid in ADDED else "") + TIERS, "design_ref": d.get("design_ref", f"DESIGN.md section 4 {pid}")},
         "level_note": d["note"],
         "technique": d["technique"],
     })
